@@ -297,6 +297,50 @@ def main(tier, replay=None):
             raise core.MachineryError('XLTotal %s: expected %s' % (cfg, 'to hold' if want else 'a counterexample'))
     run.extra['wrapper_guards_necessary'] = {'map_result_errors_through_code_table': True, 'guard_str_of_exception': True}
     obs = []
+    pool = pool_values(lib)
+    CH = 40000
+    judged = [0, 0]
+
+    def settle(part):
+        """confirm timeouts deterministically, then have TLC judge this part (the thorough tier's millions of observations
+        are judged and dropped as they come: all at once they took over 16 GB)"""
+        for o in part:
+            if o['timed_out']:
+                if o['kind'] in ('fault', 'text', 'resubscribe', 'reenter', 'chain'):
+                    continue
+                def mk():
+                    q = mk_parser(lib)
+                    for n, v in enumerate(pool):
+                        q.set_variable(PV[n], v)
+                    return q
+                o['timed_out'] = confirm_timeout(mk, o['formula'])
+                if not o['timed_out']:
+                    rec, raised, timed = guarded_parse(mk(), o['formula'], 5.0)
+                    o.update(observation(o['kind'], o['formula'], rec, raised, timed))
+        for o in part:
+            judged[0] += 1
+            o['id'] = judged[0]
+        for k in range(0, len(part), CH):
+            chunk = part[k:k + CH]
+            v = core.validate_obs(run, 'Trace_C01', chunk, 'p%d' % judged[1], consts)
+            judged[1] += 1
+            core.tally(run, chunk, v, 'c01', key=lambda o: json.dumps(o['in'], sort_keys=True, default=str))
+
+    samples = []
+    dropped = [0]
+
+    def total():
+        return dropped[0] + len(obs)
+
+    def drain(force=False):
+        """judge what has accumulated and forget it"""
+        if obs and (force or len(obs) >= CH):
+            if len(samples) < 2:
+                samples.append(obs[min(3, len(obs) - 1)]['in'])
+            settle(list(obs))
+            dropped[0] += len(obs)
+            del obs[:]
+
     # --- fault schedules: every assignment for 1- and 2-point prefixes, seeded sample for 3 points in quick
     nb = len(B)
     for t, (ast, points) in enumerate(TEMPLATES):
@@ -308,14 +352,15 @@ def main(tier, replay=None):
             combos = list(combos)
         for bs in combos:
             obs.append(run_schedule(lib, B, t, list(bs) + [0, 0, 0], debug=False))
+            drain()
         # the same with debug output switched on (diagnostics are written, and discarded here): still a record, always
         dbg = list(itertools.product(range(nb), repeat=k)) if k == 1 else [tuple(rng.randrange(nb) for _ in range(k)) for _ in range(150 if quick else 3000)]
         with contextlib.redirect_stderr(io.StringIO()), contextlib.redirect_stdout(io.StringIO()):
             for bs in dbg:
                 obs.append(run_schedule(lib, B, t, list(bs) + [0, 0, 0], debug=True))
-    run.extra['fault_schedules'] = len(obs)
+    run.extra['fault_schedules'] = total()
     # --- token soups
-    n0 = len(obs)
+    n0 = total()
     p = mk_parser(lib)
     soups = [''.join(c) for k in (1, 2) for c in itertools.product(LEX, repeat=k)]
     if quick:
@@ -334,9 +379,10 @@ def main(tier, replay=None):
             rec['cell'] = 'A2'
             rec, raised, timed = guarded_parse(p if i % 10 else mk_parser(lib), s)
         obs.append(observation('soup', s, rec, raised, timed))
-    run.extra['token_soups'] = len(obs) - n0
+        drain()
+    run.extra['token_soups'] = total() - n0
     # --- listeners that change the subscriptions of the event they are being called for
-    n0 = len(obs)
+    n0 = total()
     def resub(variant, text, seconds):
         out = []
         q = lib.Parser()
@@ -382,9 +428,9 @@ def main(tier, replay=None):
             if any(o['timed_out'] for o in got):
                 got = resub(variant, text, 5.0)     # (a stalled process is not a formula that does not return)
             obs += got
-    run.extra['listeners_changing_subscriptions'] = len(obs) - n0
+    run.extra['listeners_changing_subscriptions'] = total() - n0
     # --- callbacks that evaluate on the parser that is calling them (a cell holding a formula), also failing formulas
-    n0 = len(obs)
+    n0 = total()
 
     def reenter(inner, where, text, seconds):
         q = lib.Parser()
@@ -415,9 +461,9 @@ def main(tier, replay=None):
             if o['timed_out']:
                 o = reenter(inner, where, text, 5.0)
             obs.append(o)
-    run.extra['reentrant_callbacks'] = len(obs) - n0
+    run.extra['reentrant_callbacks'] = total() - n0
     # --- host functions that translate one error value into another (raise ... from ...), in both directions, then anything
-    n0 = len(obs)
+    n0 = total()
     E = _err
     pairs = [(E.VALUE, E.NOT_AVAILABLE), (E.NOT_AVAILABLE, E.VALUE), (E.NUM, E.NUM), (E.DIV_ZERO, ValueError('x')), (E.REF, E.NAME), (E.NAME, E.REF)]
     q = lib.Parser()
@@ -434,44 +480,13 @@ def main(tier, replay=None):
             if timed:
                 rec, raised, timed = guarded_parse(qq, text if qq is q else '1+1', 5.0)
             obs.append(observation('chain', text if qq is q else '1+1', rec, raised, timed, extra={'after': text}))
-    run.extra['chained_error_values'] = len(obs) - n0
+    run.extra['chained_error_values'] = total() - n0
     # --- every documented function x arity x pool
-    n0 = len(obs)
-    pool = pool_values(lib)
+    n0 = total()
     p = mk_parser(lib)
     for n, v in enumerate(pool):
         p.set_variable(PV[n], v)
-    CH = 40000
-    judged = [0, 0]
-
-    def settle(part):
-        """confirm timeouts deterministically, then have TLC judge this part (the thorough tier's millions of observations
-        are judged and dropped as they come: all at once they took over 16 GB)"""
-        for o in part:
-            if o['timed_out']:
-                if o['kind'] in ('fault', 'text', 'resubscribe', 'reenter', 'chain'):
-                    continue
-                def mk():
-                    q = mk_parser(lib)
-                    for n, v in enumerate(pool):
-                        q.set_variable(PV[n], v)
-                    return q
-                o['timed_out'] = confirm_timeout(mk, o['formula'])
-                if not o['timed_out']:
-                    rec, raised, timed = guarded_parse(mk(), o['formula'], 5.0)
-                    o.update(observation(o['kind'], o['formula'], rec, raised, timed))
-        for o in part:
-            judged[0] += 1
-            o['id'] = judged[0]
-        for k in range(0, len(part), CH):
-            chunk = part[k:k + CH]
-            v = core.validate_obs(run, 'Trace_C01', chunk, 'p%d' % judged[1], consts)
-            judged[1] += 1
-            core.tally(run, chunk, v, 'c01', key=lambda o: json.dumps(o['in'], sort_keys=True, default=str))
-
-    samples = [obs[3]['in'], obs[run.extra['fault_schedules'] + 500]['in']]
-    settle(obs)
-    obs = []
+    drain(True)
     ncalls = 0
     for name in names:
         for ar in range(0, 5):
@@ -488,14 +503,11 @@ def main(tier, replay=None):
                 rec, raised, timed = guarded_parse(p, text)
                 obs.append(observation('call', text, rec, raised, timed))
                 ncalls += 1
-            if len(obs) >= CH:
-                settle(obs)
-                obs = []
+            drain()
     run.extra['function_calls'] = ncalls
-    settle(obs)
-    obs = []
+    drain(True)
     # --- random unicode, truncations and unbalanced brackets
-    n0 = len(obs)
+    n0 = total()
     seeds = ['SUM(1,2)*(3+A1)', 'IF(va>1,"yes","no")&"x"', '{1,2;3,4}', "'a'&\"b\"", 'IFERROR(1/0,#N/A)', '-(1+2)%']
     texts = []
     for s in seeds:
@@ -541,8 +553,9 @@ def main(tier, replay=None):
         if out is not None:
             o['out'] = out
         obs.append(o)
-    run.extra['texts'] = len(obs) - n0
-    settle(obs)
+    run.extra['texts'] = total() - n0
+    samples.append(obs[-1]['in'])
+    drain(True)
     run.exhaustive = not quick
-    run.samples = samples + [obs[-1]['in']]
+    run.samples = samples[:3]
     return run.finish()
